@@ -16,9 +16,15 @@ class StepClient:
     """One transfer driven step by step; every step = (await the reply to my previous datagram) then (send my next datagram)."""
 
     def __init__(self, cid, role, server, nblocks, tag):
+        # role may carry a negotiated block size: "up@1024"
+        self.blk = BLK
+        if "@" in role:
+            role, b = role.split("@")
+            self.blk = int(b)
+        self.opt = self.blk != BLK
         self.cid, self.role, self.server = cid, role, server
         self.name = f"{tag}_c{cid}.bin"
-        self.content = N.keyed_content(f"{tag}-{cid}-{role}", (nblocks - 1) * BLK + 37 + cid)
+        self.content = N.keyed_content(f"{tag}-{cid}-{role}", (nblocks - 1) * self.blk + min(37 + cid, self.blk - 1))
         self.n = nblocks
         self.sock = N._sock(server.family, timeout=2.0)
         self.peer = None
@@ -27,7 +33,7 @@ class StepClient:
         self.problems = []
         self.done = False
         self.src_ports = set()
-        self.total_steps = nblocks + 1
+        self.total_steps = nblocks + 1 + (1 if (self.opt and self.role == "down") else 0)
 
     def _await(self):
         """reply to datagram number self.sent (1-based)"""
@@ -45,17 +51,23 @@ class StepClient:
         elif src != self.peer:
             self.problems.append(f"reply from {src}, transfer peer is {self.peer}")
         k, f = N.dec(buf)
+        B = self.blk
+        if self.opt and self.sent == 1:
+            # reply to the request carrying blksize must be the OACK with that value
+            if k != "OACK" or dict(f["options"]).get("blksize") != str(B):
+                self.problems.append(f"expected OACK blksize={B}, got {k} {str(f)[:80]}")
+            return
         if self.role == "down":
-            want_blk = self.sent  # reply to RRQ is DATA 1, to ACK k is DATA k+1
+            want_blk = self.sent - (1 if self.opt else 0)  # reply to RRQ (or ACK 0) is DATA 1, to ACK k is DATA k+1
             if k != "DATA" or f["blk"] != want_blk:
                 self.problems.append(f"expected DATA {want_blk}, got {k} {str(f)[:80]}")
                 return
-            off = (want_blk - 1) * BLK
-            if bytes(f["data"]) != self.content[off:off + BLK]:
-                self.problems.append(f"DATA {want_blk} does not carry my file's bytes at offset {off} (got {bytes(f['data'])[:12]!r})")
+            off = (want_blk - 1) * B
+            if bytes(f["data"]) != self.content[off:off + B]:
+                self.problems.append(f"DATA {want_blk} does not carry my file's bytes at offset {off} (got {len(f['data'])} bytes {bytes(f['data'])[:12]!r})")
             self.got += f["data"]
         else:
-            want = self.sent - 1  # reply to WRQ is ACK 0, to DATA k is ACK k
+            want = self.sent - 1  # reply to WRQ is ACK 0 (or OACK), to DATA k is ACK k
             if k != "ACK" or f["blk"] != want:
                 self.problems.append(f"expected ACK {want}, got {k} {str(f)[:80]}")
 
@@ -64,16 +76,18 @@ class StepClient:
         if self.problems:
             return
         i = self.sent
+        B = self.blk
+        opts = [("blksize", B)] if self.opt else []
         if self.role == "down":
             if i == 0:
-                self.sock.sendto(N.enc_req(N.RRQ, self.name), self.server.addr)
+                self.sock.sendto(N.enc_req(N.RRQ, self.name, options=opts), self.server.addr)
             else:
-                self.sock.sendto(N.enc_ack(i), self.peer)
+                self.sock.sendto(N.enc_ack(i - (1 if self.opt else 0)), self.peer)
         else:
             if i == 0:
-                self.sock.sendto(N.enc_req(N.WRQ, self.name), self.server.addr)
+                self.sock.sendto(N.enc_req(N.WRQ, self.name, options=opts), self.server.addr)
             else:
-                self.sock.sendto(N.enc_data(i, self.content[(i - 1) * BLK:i * BLK]), self.peer)
+                self.sock.sendto(N.enc_data(i, self.content[(i - 1) * B:i * B]), self.peer)
         self.sent += 1
 
     def finish(self):
@@ -202,12 +216,14 @@ def run(tier):
         with N.Server(tftpd, sb["srv"], single=single, logdir=sb["logs"]) as srv:
             tagn = 0
             # exhaustive interleavings, K = 2 (and 3 in thorough)
-            plans = [(("down", "down"), 3), (("down", "up"), 3), (("up", "up"), 3)]
+            plans = [(("down", "down"), 3), (("down", "up"), 3), (("up", "up"), 3),
+                     # mixed negotiated block sizes: the listener's shared state must not depend on the most recent request
+                     (("up@1024", "down"), 3), (("up@1428", "up"), 3), (("down@1024", "up@8"), 2)]
             if thorough:
                 plans += [(("down", "down", "up"), 2), (("up", "up", "down"), 2), (("down", "down", "down"), 2)]
             for roles, nblocks in plans:
-                steps = nblocks + 1
-                for order in interleavings([steps] * len(roles)):
+                counts = [nblocks + 1 + (1 if (("@" in r) and r.startswith("down")) else 0) for r in roles]
+                for order in interleavings(counts):
                     tagn += 1
                     evaluations += 1
                     run_schedule(v, srv, sb, cfg, roles, nblocks, order, f"x{tagn}")
@@ -230,9 +246,9 @@ def run(tier):
             # seeded random: K up to 8 (16 thorough), mixed roles, intruders at random steps
             for r in range(60 if thorough else 12):
                 K = rng.randint(3, 16 if thorough else 8)
-                roles = tuple(rng.choice(("down", "up")) for _ in range(K))
+                roles = tuple(rng.choice(("down", "up", "down", "up", "up@1024", "down@1024", "up@1428", "down@8", "up@65464")) for _ in range(K))
                 nblocks = rng.randint(1, 4)
-                order = [i for i in range(K) for _ in range(nblocks + 1)]
+                order = [i for i, r in enumerate(roles) for _ in range(nblocks + 1 + (1 if (("@" in r) and r.startswith("down")) else 0))]
                 rng.shuffle(order)
                 plan = {rng.randrange(len(order)): (rng.choice(["ACK", "DATA", "ERROR", "OACK", "ACK2", "DATA2"]), rng.choice(["listen", "listen", "transfer-port"] if not single else ["listen"])) for _ in range(rng.randint(0, 4))}
                 tagn += 1
